@@ -158,6 +158,11 @@ class FilesWorld:
                 d = ro.choice(["in", "in", "in2", "rel-1.2"])      # a directory name with a dot in it
                 name = ro.choice(NAMES_SINGLE * 3 + NAMES_ODD)
                 text, it = self._text(rw, enc, clean_only=(d == "in2"))
+                if ro.random() < 0.06:
+                    # line-boundary characters that are NOT newlines for a text file: form feed, vertical tab, and (where the
+                    # codec has them) NEL / LINE SEPARATOR
+                    sep = ro.choice(["\x0c", "\x0b", "\x1c"] + (["\u2028", "\x85"] if enc in ("utf-8", "utf-8-sig", "utf-16") else []))
+                    text = "-- page%sbreak 'a%sb'\n" % (sep, sep) + text
                 put = {"op": "put", "dir": d, "name": name, "text": text, "enc": enc}
                 nl = ro.random()
                 if nl < 0.2:
